@@ -2,8 +2,13 @@ package props
 
 import (
 	"bytes"
+	"context"
+	"encoding/csv"
 	"encoding/json"
 	"fmt"
+	"os"
+	"os/exec"
+	"path/filepath"
 	"sort"
 	"strings"
 	"time"
@@ -55,13 +60,26 @@ type Ceremony struct {
 	N, T  int
 	// ReinitHashes: per node, the confirmation hash shown to the operator (reinitialised worlds).
 	ReinitHashes map[string][]byte
+	// ReinitFile: the reinitialisation file as written by the dkg_reinitializer binary (tool-chain worlds).
+	ReinitFile string
 }
 
 func now() time.Time { return time.Now().UTC() }
 
 // NewCeremony builds a world and runs key generation under policy until quiescence.
 func NewCeremony(seed uint64, n, t int, policy world.RunPolicy) (*Ceremony, error) {
-	w, err := world.NewWorld(world.Options{N: n, T: t, Seed: seed})
+	return NewCeremonyVia(seed, n, t, policy, false)
+}
+
+// NewCeremonyVia: viaHTTP = the operators reach their nodes through the repository's REST API.
+func NewCeremonyVia(seed uint64, n, t int, policy world.RunPolicy, viaHTTP bool) (*Ceremony, error) {
+	return NewCeremonyWith(world.Options{N: n, T: t, Seed: seed, ViaHTTP: viaHTTP}, policy)
+}
+
+// NewCeremonyWith runs a key generation in a world built from opt.
+func NewCeremonyWith(opt world.Options, policy world.RunPolicy) (*Ceremony, error) {
+	seed, n, t := opt.Seed, opt.N, opt.T
+	w, err := world.NewWorld(opt)
 	if err != nil {
 		return nil, err
 	}
@@ -331,7 +349,7 @@ func ReinitFrom(old *Ceremony, commSeed uint64, adapt func(*types.ReDKG) (*types
 	for _, n := range old.W.Nodes {
 		names = append(names, n.Name)
 	}
-	w, err := world.NewWorld(world.Options{N: old.N, T: old.T, Seed: old.W.Opt.Seed, CommSeed: commSeed, Names: names})
+	w, err := world.NewWorld(world.Options{N: old.N, T: old.T, Seed: old.W.Opt.Seed, CommSeed: commSeed, Names: names, ViaHTTP: old.W.Opt.ViaHTTP, ViaCLI: old.W.Opt.ViaCLI})
 	if err != nil {
 		return nil, nil, err
 	}
@@ -342,7 +360,31 @@ func ReinitFrom(old *Ceremony, commSeed uint64, adapt func(*types.ReDKG) (*types
 		keys[n.Name] = n.KeyPair.Pub
 	}
 	msgs, _ := old.W.Board.GetMessages(0)
-	re, err := types.GenerateReDKGMessage(msgs, keys)
+	var re *types.ReDKG
+	var bz []byte
+	if cli := w.Nodes[0].CLI; cli != nil && adapt == nil && world.ReinitializerBin() != "" {
+		// the shipped pipeline: board dump (CSV) -> dkg_reinitializer -> reinit.json -> dc4bc_cli reinit_dkg
+		dump := filepath.Join(cli.Dir, "dump.csv")
+		if err := WriteDumpCSV(dump, msgs); err != nil {
+			w.Close()
+			return nil, nil, err
+		}
+		re, bz, ce.ReinitFile, err = RunReinitializer(cli.Dir, dump, keys, false)
+		if err != nil {
+			w.Close()
+			return nil, nil, err
+		}
+		if err := cli.Reinit(ce.ReinitFile); err != nil {
+			w.Close()
+			return nil, nil, err
+		}
+		if _, q := w.Run(policy, 4000); !q {
+			w.Close()
+			return nil, nil, fmt.Errorf("reinit did not reach quiescence")
+		}
+		return ce, re, nil
+	}
+	re, err = types.GenerateReDKGMessage(msgs, keys)
 	if err != nil {
 		w.Close()
 		return nil, nil, err
@@ -353,12 +395,17 @@ func ReinitFrom(old *Ceremony, commSeed uint64, adapt func(*types.ReDKG) (*types
 			return nil, nil, err
 		}
 	}
-	bz, err := json.Marshal(re)
+	bz, err = json.Marshal(re)
 	if err != nil {
 		w.Close()
 		return nil, nil, err
 	}
-	if err := w.Nodes[0].Svc.ReInitDKG(&dto.ReInitDKGDTO{ID: re.DKGID, Payload: bz}); err != nil {
+	if api := w.Nodes[0].API; api != nil {
+		err = api.Reinit(bz) // POST /reinitDKG with the file `dc4bc_dkg_reinitializer` wrote
+	} else {
+		err = w.Nodes[0].Svc.ReInitDKG(&dto.ReInitDKGDTO{ID: re.DKGID, Payload: bz})
+	}
+	if err != nil {
 		w.Close()
 		return nil, nil, err
 	}
@@ -370,3 +417,51 @@ func ReinitFrom(old *Ceremony, commSeed uint64, adapt func(*types.ReDKG) (*types
 }
 
 var captureReinitHashesHook = func(w *world.World) map[string][]byte { return captureReinitHashes(w) }
+
+// WriteDumpCSV writes messages in the shape of the Kafka dump the reinitializer reads
+// (header; timestamp;partition;offset;key;value with the message JSON as value).
+func WriteDumpCSV(path string, msgs []storage.Message) error {
+	f, err := os.Create(path)
+	if err != nil {
+		return err
+	}
+	defer f.Close()
+	cw := csv.NewWriter(f)
+	cw.Comma = ';'
+	_ = cw.Write([]string{"timestamp", "partition", "offset", "key", "value"})
+	for i, m := range msgs {
+		bz, err := json.Marshal(m)
+		if err != nil {
+			return err
+		}
+		_ = cw.Write([]string{fmt.Sprint(1637743545160 + i), "0", fmt.Sprint(m.Offset), m.ID, string(bz)})
+	}
+	cw.Flush()
+	return cw.Error()
+}
+
+// RunReinitializer runs the dkg_reinitializer binary on a CSV dump; returns the parsed file, its bytes and path.
+func RunReinitializer(dir, dump string, keys map[string][]byte, adapt014 bool) (*types.ReDKG, []byte, string, error) {
+	kp := filepath.Join(dir, "keys.json")
+	kb, _ := json.Marshal(keys)
+	if err := os.WriteFile(kp, kb, 0o600); err != nil {
+		return nil, nil, "", err
+	}
+	out := filepath.Join(dir, "reinit.json")
+	_ = os.Remove(out)
+	ctx, cancel := context.WithTimeout(context.Background(), 2*time.Minute)
+	defer cancel()
+	cmd := exec.CommandContext(ctx, world.ReinitializerBin(), "reinit", "-i", dump, "-k", kp, "-o", out, "--skip-header", fmt.Sprintf("--adapt_0_1_4=%v", adapt014))
+	if bz, err := cmd.CombinedOutput(); err != nil {
+		return nil, nil, "", fmt.Errorf("dkg_reinitializer: %v: %s", err, trunc(string(bz), 300))
+	}
+	bz, err := os.ReadFile(out)
+	if err != nil {
+		return nil, nil, "", fmt.Errorf("dkg_reinitializer wrote no file: %w", err)
+	}
+	var re types.ReDKG
+	if err := json.Unmarshal(bz, &re); err != nil {
+		return nil, nil, "", fmt.Errorf("file written by dkg_reinitializer does not parse: %w", err)
+	}
+	return &re, bz, out, nil
+}
